@@ -825,13 +825,14 @@ example :
 configurations (and `safely_quote`, `upper_quoted` themselves): the theorems above are about
 what the public API runs -/
 theorem api_functions :
-    Canonicalize.unquoteAuthItem = safelyUnquote Gen.Quote.unsafeForAuthItem ∧
+    (∀ s, Canonicalize.unquoteAuthItem s =
+      requoteNfkc (safelyUnquote Gen.Quote.unsafeForAuthItem s)) ∧
     Canonicalize.unquotePath = safelyUnquote Gen.Quote.unsafeForPath ∧
     Canonicalize.unquoteQueryItem = safelyUnquote Gen.Quote.unsafeForQueryItem ∧
     Canonicalize.unquoteFragment = safelyUnquote Gen.Quote.unsafeForFragment ∧
     (∀ url dp, Canonicalize.cleanUrl url dp =
       UrlParts.ensureProtocol (upperQuoted (strip (UrlParts.stripControl url))) dp) :=
-  ⟨rfl, rfl, rfl, rfl, fun _ _ => rfl⟩
+  ⟨fun _ => rfl, rfl, rfl, rfl, fun _ _ => rfl⟩
 
 /-- `safely_unquote_qsl` / `safely_quote_qsl` (key/value lists): same shape — as many pairs, a
 missing value stays missing —, keys and values decode to the same bytes, and each of the two,
